@@ -823,11 +823,30 @@ impl Paragraph {
         }
     }
 
+    /// A NEWLINE token if the last line of the paragraph is not terminated, so that a field can be appended.
+    fn line_terminator(&self) -> Vec<SyntaxElement> {
+        let text = self.0.text().to_string();
+        if text.is_empty() || text.ends_with('\n') {
+            return vec![];
+        }
+        let mut builder = GreenNodeBuilder::new();
+        builder.start_node(EMPTY_LINE.into());
+        builder.token(NEWLINE.into(), "\n");
+        builder.finish_node();
+        let mut newline = vec![];
+        if let Some(token) = SyntaxNode::new_root_mut(builder.finish()).first_token() {
+            newline.push(token.into());
+        }
+        newline
+    }
+
     /// Insert a new field
     pub fn insert(&mut self, key: &str, value: &str) {
         let entry = Entry::new(key, value);
         let count = self.0.children_with_tokens().count();
-        self.0.splice_children(count..count, vec![entry.0.into()]);
+        let mut to_insert = self.line_terminator();
+        to_insert.push(entry.0.into());
+        self.0.splice_children(count..count, to_insert);
     }
 
     /// Set a field in the paragraph
@@ -844,8 +863,9 @@ impl Paragraph {
             }
         }
         let count = self.0.children_with_tokens().count();
-        self.0
-            .splice_children(count..count, vec![new_entry.0.into()]);
+        let mut to_insert = self.line_terminator();
+        to_insert.push(new_entry.0.into());
+        self.0.splice_children(count..count, to_insert);
     }
 
     /// Rename the given field in the paragraph.
